@@ -242,7 +242,8 @@ def cv_cases():
             "nintf": st.integers(2, 6),
             "moves": st.lists(st.sampled_from(["sh", "wf"]), min_size=7, max_size=7),
             "cap": st.one_of(st.none(), st.sampled_from([1.0, 1.25, 1.5, 2.0, 2.5, 3.0])),
-            "lm1": st.one_of(st.just(False), st.sampled_from([-1.0, -0.25])),
+            # (a value written without a decimal point in the TOML file arrives as an integer)
+            "lm1": st.one_of(st.just(False), st.sampled_from([-1.0, -0.25, -1, -2])),
             "minus": st.booleans(),
             # the same system translated along the order-parameter axis (all values are multiples of 1/4: exact); the
             # negatives of the cap values put the cap, an interface or lambda_-1 on 0.0
@@ -280,7 +281,12 @@ def body_cv(rec, c):
     sh = c.get("shift", 0.0)
     if sh:
         path = mk_path([x + sh for x in o])
-    got = calc_cv_vector(path, [x + sh for x in intf], call_moves, lambda_minus_one=(c["lm1"] + sh if c["lm1"] is not False else False),
+    lm1v = False
+    if c["lm1"] is not False:
+        lm1v = c["lm1"] + sh
+        if isinstance(c["lm1"], int) and float(sh).is_integer():
+            lm1v = int(lm1v)  # stays an integer under a whole-number translation
+    got = calc_cv_vector(path, [x + sh for x in intf], call_moves, lambda_minus_one=lm1v,
                          cap=(cap + sh if cap is not None else None), minus=c["minus"])
     on = any(x in intf for x in o)
     rec.case(key=c, nontrivial=("wf" in moves[1:]) or on, classes=["cv", "cv:minus" if c["minus"] else "cv:plus"]
